@@ -118,6 +118,7 @@ fn main() {
         "node_sessions" => auth::sessions(&args),
         "node_commit" => auth::commit(&args),
         "node_check" => auth::check_candidate(&args),
+        "node_check_session" => auth::check_session(&args),
         "node_ready" => auth::ready(&args),
         "session_mirror" => auth::mirror(&args),
         "session_announce" => auth::announce(&args),
